@@ -215,7 +215,13 @@ func (p *Pipe) Read(b []byte) (int, error) {
 	if k > len(b) {
 		k = len(b)
 	}
-	switch p.SegMode {
+	mode := p.SegMode
+	if (mode == SegTiny || mode == SegSmall) && p.R.T.Room() < 1<<15 {
+		// Tens of kilobytes in pieces of a few bytes: the choice tape is
+		// bounded; the rest arrives in larger pieces.
+		mode = SegMedium
+	}
+	switch mode {
 	case SegOne:
 		k = 1
 	case SegTiny:
